@@ -2,7 +2,7 @@
 // database driven through state.StateDB commits (real tries, real roots) for property C16.
 //
 //	-mode replay -in behaviours.json    behaviours from MCPathDB (simulation with history)
-//	-mode finding                       deterministic reproduction of finding F1 through Update/NodeReader/Commit
+//	-mode regress                       fork exactly at the cap depth through Update only (regression scenario of the fixed defect C16-F1)
 //
 // After every step the driver compares the white-box projection of the database (layers,
 // parents, ids, changed keys, disk layer, buffer, frozen buffer, persistent id and flat state,
@@ -152,15 +152,12 @@ type env struct {
 	sum    *tl.Summary
 	gate   *gates
 	dead   map[string]bool // roots that were live once and have been dropped
-	pend   map[string]int  // pending findings (TODO-KNOWN-FINDING F1)
 	where  string
-	f1desc map[common.Hash]bool // descendants keys already attributed to F1
 }
 
 func newEnv(keys []string, async bool, sum *tl.Summary, g *gates) *env {
 	e := &env{keys: keys, async: async, sum: sum, gate: g, root: map[string]common.Hash{}, wkey: map[common.Hash]string{},
-		worlds: map[string]world{}, refSR: map[string]common.Hash{}, dead: map[string]bool{}, pend: map[string]int{},
-		f1desc: map[common.Hash]bool{}}
+		worlds: map[string]world{}, refSR: map[string]common.Hash{}, dead: map[string]bool{}}
 	g.mu.Lock()
 	g.async, g.allowance = async, 0
 	g.mu.Unlock()
@@ -455,6 +452,11 @@ func (e *env) compare(m *projJ, where string) {
 	if got != len(want) {
 		bad("implementation has %d diff layers, specification %d", got, len(want))
 	}
+	for _, l := range e.pdb.VerifLayers() {
+		if !l.Disk && (l.ChainStale || l.ChainDetached) {
+			bad("layer %s: parent chain of layer objects ends in a stale disk layer (%v) / passes a layer that left the tree (%v)", name(l.Root), l.ChainStale, l.ChainDetached)
+		}
+	}
 	// disk layer, buffers
 	if name(d.Root) != e.wk(m.Disk.Root) || d.ID != m.Disk.ID || d.Stale {
 		bad("disk layer %s id %d stale=%v, specification %s id %d", name(d.Root), d.ID, d.Stale, e.wk(m.Disk.Root), m.Disk.ID)
@@ -513,37 +515,17 @@ func (e *env) compare(m *projJ, where string) {
 		wd[e.wk(x.Anc)] = fmt.Sprint(sorted(rs))
 	}
 	gd := e.pdb.VerifDescendants()
-	liveRoot := map[common.Hash]bool{d.Root: true}
-	tainted := map[common.Hash]bool{}
-	for _, l := range e.pdb.VerifLayers() {
-		liveRoot[l.Root] = true
-		if !l.Disk && (l.ChainStale || l.ChainDetached) {
-			tainted[l.Root] = true
-		}
-	}
-	extra := 0
 	for a, rs := range gd {
 		names := []string{}
-		allTainted := len(rs) > 0
 		for _, r := range rs {
 			names = append(names, name(r))
-			allTainted = allTainted && tainted[r]
-		}
-		if !liveRoot[a] && (allTainted || e.f1desc[a]) {
-			e.f1desc[a] = true // the entry stays behind even when its members get re-parented later
-			// TODO-KNOWN-FINDING F1: fillAncestors walks the object chain of a layer added on top of a
-			// sibling of the capped path, through the flattened layer into the stale disk layer, and
-			// records the new layer as descendant of that stale disk layer's root.
-			e.pend["F1: descendants records a layer under the root of a stale disk layer"]++
-			extra++
-			continue
 		}
 		if wd[name(a)] != fmt.Sprint(sorted(names)) {
 			bad("descendants[%s] = %v, specification %v", name(a), sorted(names), wd[name(a)])
 		}
 	}
-	if len(gd)-extra != len(wd) {
-		bad("descendants has %d entries, specification %d", len(gd)-extra, len(wd))
+	if len(gd) != len(wd) {
+		bad("descendants has %d entries, specification %d", len(gd), len(wd))
 	}
 }
 
@@ -653,8 +635,8 @@ func isStaleErr(err error) bool {
 	return err != nil // coarse class: any refusal; the specification has exactly one error (stale)
 }
 
-// tainted reports finding F1 for a live root: its object chain runs through a flattened
-// diff layer into a stale disk layer (sibling of the capped path).
+// tainted reports that the object chain of a live root runs through a flattened diff layer
+// into a stale disk layer (the defect C16-F1, fixed in 13160d1914).
 func (e *env) tainted(root common.Hash) bool {
 	for _, l := range e.pdb.VerifLayers() {
 		if l.Root == root {
@@ -683,18 +665,14 @@ func (e *env) verifyReads(m *projJ, where string) {
 				e.sum.Violate(fmt.Sprintf("%s: StateReader(%s).%s = %d (err %v), the state holds %d", where, wk, k, v, err, w[k]), tl.M{"model": m})
 			}
 			v, err := e.slow(h, k)
-			if err != nil && e.tainted(e.rootOf(w)) {
-				// TODO-KNOWN-FINDING F1 (spec/state/NOTES.md): children of a flattened layer other than
-				// the one on the capped path keep pointing at the flattened diff layer object, whose
-				// parent is a stale disk layer: node reads at such an available root fail.
-				e.pend["F1: node read at available sibling root fails with stale error"]++
-				continue
-			}
 			if err != nil || v != w[k] {
 				e.sum.Violate(fmt.Sprintf("%s: trie read over NodeReader(%s) of %s = %d (err %v), the state holds %d", where, wk, k, v, err, w[k]), tl.M{"model": m})
 			}
 		}
 		e.sum.Evaluations += 2 * len(e.keys)
+		if iterMode {
+			e.verifyIterators(w, wk, where, m)
+		}
 		delete(e.dead, wk)
 	}
 	for wk := range e.dead {
@@ -716,6 +694,180 @@ func (e *env) verifyReads(m *projJ, where string) {
 			}
 		}
 	}
+}
+
+// ------------------------------------------------------------------ iterators (C22)
+
+var iterMode bool
+
+type flatEntry struct {
+	hash common.Hash
+	blob []byte
+}
+
+// expectedAccounts lists the accounts of a world in hash order with their full RLP encoding.
+func (e *env) expectedAccounts(w world) []flatEntry {
+	var out []flatEntry
+	for _, k := range e.keys {
+		if !isSlot(k) && w[k] != 0 {
+			acc := types.StateAccount{Balance: uint256.NewInt(uint64(w[k])), Root: types.EmptyRootHash, CodeHash: types.EmptyCodeHash.Bytes()}
+			b, _ := rlp.EncodeToBytes(&acc)
+			out = append(out, flatEntry{crypto.Keccak256Hash(addrOf(k).Bytes()), b})
+		}
+	}
+	if hasContract(w) {
+		acc := types.StateAccount{Nonce: 1, Balance: uint256.NewInt(0), Root: e.storageRoot(w), CodeHash: types.EmptyCodeHash.Bytes()}
+		b, _ := rlp.EncodeToBytes(&acc)
+		out = append(out, flatEntry{crypto.Keccak256Hash(contract.Bytes()), b})
+	}
+	sort.Slice(out, func(i, j int) bool { return string(out[i].hash[:]) < string(out[j].hash[:]) })
+	return out
+}
+
+func (e *env) expectedSlots(w world) []flatEntry {
+	var out []flatEntry
+	if !hasContract(w) {
+		return out
+	}
+	for _, k := range e.keys {
+		if isSlot(k) && w[k] != 0 {
+			b, _ := rlp.EncodeToBytes(common.TrimLeftZeroes(uint256.NewInt(uint64(w[k])).Bytes()))
+			out = append(out, flatEntry{crypto.Keccak256Hash(slotOf(k).Bytes()), b})
+		}
+	}
+	sort.Slice(out, func(i, j int) bool { return string(out[i].hash[:]) < string(out[j].hash[:]) })
+	return out
+}
+
+func from(all []flatEntry, seek common.Hash) []flatEntry {
+	out := []flatEntry{}
+	for _, x := range all {
+		if string(x.hash[:]) >= string(seek[:]) {
+			out = append(out, x)
+		}
+	}
+	return out
+}
+
+type anyIter interface {
+	Next() bool
+	Error() error
+	Hash() common.Hash
+	Release()
+}
+
+func collect(it anyIter, val func() []byte, full bool) ([]flatEntry, error) {
+	defer it.Release()
+	out := []flatEntry{}
+	for it.Next() {
+		b := common.CopyBytes(val())
+		if full { // flat accounts are stored in slim format
+			acc, err := types.FullAccountRLP(b)
+			if err != nil {
+				return out, err
+			}
+			b = acc
+		}
+		out = append(out, flatEntry{it.Hash(), b})
+		if len(out) > 1000 {
+			return out, errors.New("iterator does not terminate")
+		}
+	}
+	return out, it.Error()
+}
+
+func sameEntries(a, b []flatEntry) bool {
+	if len(a) != len(b) {
+		return false
+	}
+	for i := range a {
+		if a[i].hash != b[i].hash || string(a[i].blob) != string(b[i].blob) {
+			return false
+		}
+	}
+	return true
+}
+
+// trieLeaves walks the state trie (or the contract's storage trie) at the root of world w.
+func (e *env) trieLeaves(w world, storage bool) ([]flatEntry, error) {
+	id := trie.StateTrieID(e.rootOf(w))
+	if storage {
+		id = trie.StorageTrieID(e.rootOf(w), crypto.Keccak256Hash(contract.Bytes()), e.storageRoot(w))
+	}
+	tr, err := trie.New(id, e.tdb)
+	if err != nil {
+		return nil, err
+	}
+	nit, err := tr.NodeIterator(nil)
+	if err != nil {
+		return nil, err
+	}
+	out := []flatEntry{}
+	for nit.Next(true) {
+		if nit.Leaf() {
+			out = append(out, flatEntry{common.BytesToHash(nit.LeafKey()), common.CopyBytes(nit.LeafBlob())})
+		}
+	}
+	return out, nit.Error()
+}
+
+// verifyIterators (C22): at an available root, the fast and the binary iterators enumerate
+// exactly the entries of the state from every seek position and agree with the trie walk.
+func (e *env) verifyIterators(w world, wk, where string, m *projJ) {
+	if m.Frozen.Present && !m.Frozen.Done {
+		return // iterator construction waits for the pending flush, which the replay keeps parked
+	}
+	root := e.rootOf(w)
+	chash := crypto.Keccak256Hash(contract.Bytes())
+	accts, slots := e.expectedAccounts(w), e.expectedSlots(w)
+	if leaves, err := e.trieLeaves(w, false); err != nil || !sameEntries(leaves, accts) {
+		e.sum.Violate(fmt.Sprintf("%s: account trie walk at %s yields %d leaves (err %v), the state has %d accounts", where, wk, len(leaves), err, len(accts)), tl.M{"model": m})
+	}
+	if hasContract(w) {
+		if leaves, err := e.trieLeaves(w, true); err != nil || !sameEntries(leaves, slots) {
+			e.sum.Violate(fmt.Sprintf("%s: storage trie walk at %s yields %d leaves (err %v), the state has %d slots", where, wk, len(leaves), err, len(slots)), tl.M{"model": m})
+		}
+	}
+	seeks := []common.Hash{{}}
+	for _, x := range accts {
+		seeks = append(seeks, x.hash)
+		up := x.hash
+		up[31]++
+		seeks = append(seeks, up)
+	}
+	for _, seek := range seeks {
+		want := from(accts, seek)
+		if it, err := e.pdb.AccountIterator(root, seek); err != nil {
+			e.sum.Violate(fmt.Sprintf("%s: AccountIterator(%s) cannot be created: %v", where, wk, err), tl.M{"model": m})
+		} else if got, err := collect(it, it.Account, true); err != nil || !sameEntries(got, want) {
+			e.sum.Violate(fmt.Sprintf("%s: AccountIterator(%s, seek %x) yields %d entries (err %v), the state has %d from there", where, wk, seek[:4], len(got), err, len(want)), tl.M{"model": m})
+		}
+		if it, err := e.pdb.VerifBinaryAccountIterator(root, seek); err != nil {
+			e.sum.Violate(fmt.Sprintf("%s: binary account iterator(%s) cannot be created: %v", where, wk, err), tl.M{"model": m})
+		} else if got, err := collect(it, it.Account, true); err != nil || !sameEntries(got, want) {
+			e.sum.Violate(fmt.Sprintf("%s: binary account iterator(%s, seek %x) yields %d entries (err %v), the state has %d from there", where, wk, seek[:4], len(got), err, len(want)), tl.M{"model": m})
+		}
+		e.sum.Evaluations += 2
+	}
+	sseeks := []common.Hash{{}}
+	for _, x := range slots {
+		sseeks = append(sseeks, x.hash)
+	}
+	for _, seek := range sseeks {
+		want := from(slots, seek)
+		if it, err := e.pdb.StorageIterator(root, chash, seek); err != nil {
+			e.sum.Violate(fmt.Sprintf("%s: StorageIterator(%s) cannot be created: %v", where, wk, err), tl.M{"model": m})
+		} else if got, err := collect(it, it.Slot, false); err != nil || !sameEntries(got, want) {
+			e.sum.Violate(fmt.Sprintf("%s: StorageIterator(%s, seek %x) yields %d entries (err %v), the state has %d from there", where, wk, seek[:4], len(got), err, len(want)), tl.M{"model": m})
+		}
+		if it, err := e.pdb.VerifBinaryStorageIterator(root, chash, seek); err != nil {
+			e.sum.Violate(fmt.Sprintf("%s: binary storage iterator(%s) cannot be created: %v", where, wk, err), tl.M{"model": m})
+		} else if got, err := collect(it, it.Slot, false); err != nil || !sameEntries(got, want) {
+			e.sum.Violate(fmt.Sprintf("%s: binary storage iterator(%s, seek %x) yields %d entries (err %v), the state has %d from there", where, wk, seek[:4], len(got), err, len(want)), tl.M{"model": m})
+		}
+		e.sum.Evaluations += 2
+	}
+	e.sum.Count("iterated-roots")
 }
 
 // ------------------------------------------------------------------ actions
@@ -772,10 +924,9 @@ func (e *env) capGroup(prev *projJ, steps []stepJ) bool {
 	full := begin["full"].(bool)
 	root := e.rootOf(r)
 	if e.tainted(root) {
-		// TODO-KNOWN-FINDING F1: flattening a chain that runs through an already flattened layer would
-		// commit that layer a second time (observed: panic "duplicated flush operation" / misaligned
-		// buffer); the behaviour cannot be continued on the real database.
-		e.pend["F1: cap/Commit of a chain through an already flattened layer (not executed)"]++
+		// (regression guard for the defect fixed in 13160d1914: flattening such a chain would commit
+		// an already flattened layer again and leave the real database unusable for the comparison)
+		e.sum.Violate(fmt.Sprintf("layer %s hangs on an object chain through a flattened diff layer / stale disk layer", r.key(e.keys)), tl.M{"act": begin})
 		return false
 	}
 	flushes := 0
@@ -925,10 +1076,6 @@ func (e *env) checkRead(rd *rdState, act map[string]any, r rdResult, how string,
 	case r.err == nil && r.v != w[rd.key]:
 		e.sum.Violate(fmt.Sprintf("%s at %s: %s = %d, the state holds %d (another state's data)", how, w.key(e.keys), rd.key, r.v, w[rd.key]), tl.M{"act": act})
 	case r.err != nil && want != errStale:
-		if e.tainted(e.rootOf(w)) { // (the fallback of the flat-state path walks the same object chain)
-			e.pend["F1: node read at available sibling root fails with stale error"]++ // TODO-KNOWN-FINDING F1
-			return
-		}
 		e.sum.Violate(fmt.Sprintf("%s at %s: %s refused (%v), specification: value %d (the reader's layer is still in the tree)", how, w.key(e.keys), rd.key, r.err, want), tl.M{"act": act})
 	case r.err == nil && want == errStale && !slow:
 		// the flat-state path is modelled exactly: a value where the specification reports stale
@@ -964,9 +1111,7 @@ func (e *env) replay(b *behaviour, idx int) {
 			r := parseWorld(s.Act["r"])
 			n := int(s.Act["n"].(float64))
 			if e.tainted(e.rootOf(r)) {
-				// TODO-KNOWN-FINDING F1: on a chain through an already flattened layer cap does not stop
-				// where the specification's chain ends but commits the flattened layer again
-				e.pend["F1: cap/Commit of a chain through an already flattened layer (not executed)"]++
+				e.sum.Violate(fmt.Sprintf("%s: layer %s hangs on an object chain through a flattened diff layer / stale disk layer", where, r.key(e.keys)), tl.M{"act": s.Act})
 				return
 			}
 			var err error
@@ -1038,14 +1183,10 @@ func runReplay(in string, sum *tl.Summary) {
 	var bs []behaviour
 	tl.ReadJSON(in, &bs)
 	seen := map[string]bool{}
-	pend := map[string]int{}
 	for i := range bs {
 		b := &bs[i]
 		e := newEnv(sorted(b.Keys), b.Init.Async, sum, newGates())
 		e.replay(b, i)
-		for k, n := range e.pend {
-			pend[k] += n
-		}
 		e.close()
 		sum.Evaluations++
 		sum.Traces++
@@ -1061,7 +1202,6 @@ func runReplay(in string, sum *tl.Summary) {
 			break
 		}
 	}
-	sum.Extra["pending_findings"] = pend
 	sum.Rule = "TLC-generated behaviours of MCPathDB (simulation) replayed on a real pathdb.Database; distinct = distinct action sequences; evaluations = behaviours + individual reads compared"
 }
 
@@ -1073,12 +1213,16 @@ func actsOf(b *behaviour) []map[string]any {
 	return out
 }
 
-// ------------------------------------------------------------------ finding F1 through the public API
+// ------------------------------------------------------------------ regression scenario (fixed defect C16-F1)
 
-// runFinding builds, with the default 128-layer limit and only Database.Update, a fork on the
-// layer that gets flattened: the fork stays registered as an available state, but node reads
-// at it fail and committing it breaks.
-func runFinding(sum *tl.Summary) {
+// runRegress builds, with the default 128-layer limit and only StateDB commits
+// (Database.Update), a fork on the layer that gets flattened by the next Update.  Before the
+// fix 13160d1914 the fork stayed registered as an available state but kept pointing at the
+// flattened diff layer object (parent: stale disk layer): trie reads at it failed, committing
+// it failed, and a layer added on top of it was recorded as descendant of the stale disk
+// root, so that the lookup index returned another state's account once a layer with that
+// root was added again.  Every available state must read as itself through both paths.
+func runRegress(sum *tl.Summary) {
 	g := newGates()
 	// four accounts whose hashed addresses start with different nibbles: adding one of them never
 	// moves the trie leaf of another
@@ -1096,88 +1240,73 @@ func runFinding(sum *tl.Summary) {
 	keys = sorted(keys)
 	e := newEnv(keys, false, sum, g)
 	defer e.close()
-	w := world{}
 	next := func(p world, d world) world {
 		nw := apply(p, d, keys)
 		st, err := state.New(e.rootOf(p), e.sdb)
 		if err != nil {
-			tl.Fatal("open %v: %v", p, err)
+			sum.Violate(fmt.Sprintf("available state %s cannot be opened for execution: %v", p.key(keys), err), tl.M{})
+			return nw
 		}
 		write(st, p, nw, keys)
 		e.block++
 		root, err := st.Commit(rules, e.block)
 		if err != nil {
-			tl.Fatal("commit: %v", err)
+			sum.Violate(fmt.Sprintf("executing %v on available state %s fails: %v", d, p.key(keys), err), tl.M{})
+			return nw
 		}
 		e.register(nw, root)
 		return nw
 	}
-	l0 := next(w, world{k3: 7, k4: 8}) // L0: two accounts nobody touches afterwards
-	l1 := next(l0, world{k1: 1})       // L1
-	sib := next(l1, world{k2: 999})    // fork on L1
+	check := func(w world, what string) {
+		h, err := e.open(w)
+		if err != nil {
+			sum.Violate(fmt.Sprintf("%s (%s) is not available: %v", what, w.key(keys), err), tl.M{})
+			return
+		}
+		for _, k := range keys {
+			if v, err := e.fast(h, k); err != nil || v != w[k] {
+				sum.Violate(fmt.Sprintf("StateReader(%s).%s = %d (err %v), the state holds %d", what, k, v, err, w[k]), tl.M{"state": w.key(keys)})
+			}
+			if v, err := e.slow(h, k); err != nil || v != w[k] {
+				sum.Violate(fmt.Sprintf("trie read over NodeReader(%s) of %s = %d (err %v), the state holds %d", what, k, v, err, w[k]), tl.M{"state": w.key(keys)})
+			}
+			sum.Evaluations += 2
+		}
+	}
+	l0 := next(world{}, world{k3: 7, k4: 8}) // L0: two accounts nobody touches afterwards
+	l1 := next(l0, world{k1: 1})             // L1
+	sib := next(l1, world{k2: 999})          // fork on L1
 	cur := l1
 	for i := 2; i <= 129; i++ { // L2 .. L129 on L1: Update flattens L0, then L1 (128 diff layers are kept)
 		cur = next(cur, world{k1: i})
 	}
-	out := tl.M{}
-	_, err := e.pdb.StateReader(e.rootOf(sib))
-	out["StateReader(sibling)"] = fmt.Sprint(err)
-	h, err := e.open(sib)
-	if err != nil {
-		out["open"] = err.Error()
-	} else {
-		v, err := e.fast(h, k2)
-		out["fast read of the account changed in the sibling"] = fmt.Sprintf("%d %v", v, err)
-		v, err = e.fast(h, k3)
-		out["fast read of an old account (sibling)"] = fmt.Sprintf("%d %v", v, err)
-		v, err = e.slow(h, k3)
-		out["trie read a3 (sibling)"] = fmt.Sprintf("%d %v", v, err)
-		if hh, err2 := e.open(cur); err2 == nil {
-			v2, err2 := e.slow(hh, k3)
-			out["trie read a3 (head)"] = fmt.Sprintf("%d %v", v2, err2)
-		}
-		if err != nil {
-			e.pend["F1: node read at available sibling root fails with stale error"]++
-		}
+	check(cur, "head")
+	check(sib, "fork on the flattened layer")
+	child := next(sib, world{k4: 9}) // touches an account older than the flattened layer
+	check(child, "child of the fork")
+	again := next(l1, world{k1: 0}) // same state, hence same root, as L0: the stale disk layer's root returns as a diff layer
+	if e.rootOf(again) != e.rootOf(l0) {
+		tl.Fatal("scenario broken: undoing L1 does not reproduce L0's root")
 	}
-	// F1, wrong data: a layer added on top of the sibling is recorded (fillAncestors walks the
-	// stale object chain) as descendant of the root of the stale disk layer L0.  When a layer with
-	// that same root is added again (here: undoing L1's change on top of the new disk layer), the
-	// lookup index takes it for an ancestor of the sibling's child.
-	child := next(sib, world{k2: 5}) // (touching an account older than L1 fails already: its trie nodes cannot be read)
-	again := next(l1, world{k1: 0}) // same state, hence same root, as L0
-	out["re-added root equals L0 root"] = fmt.Sprint(e.rootOf(again) == e.rootOf(l0))
-	if hc, err := e.open(child); err != nil {
-		out["open(child of sibling)"] = err.Error()
+	check(child, "child of the fork, after the old disk root was added again")
+	check(sib, "fork, after the old disk root was added again")
+	if err := e.tdb.Commit(e.rootOf(child), false); err != nil {
+		sum.Violate(fmt.Sprintf("Commit(child of the fork) fails: %v", err), tl.M{})
 	} else {
-		v, err := e.fast(hc, k1)
-		out["StateReader(child of sibling) account changed in L1 (state holds 1)"] = fmt.Sprintf("%d %v", v, err)
-		if err == nil && v != child[k1] {
-			e.pend["F1: StateReader at the child of a sibling returns another state's account"]++
-		}
+		check(child, "child of the fork, committed")
 	}
-	func() {
-		defer func() {
-			if p := recover(); p != nil {
-				out["Commit(sibling)"] = fmt.Sprintf("panic: %v", p)
-				e.pend["F1: Commit of an available sibling root panics"]++
-			}
-		}()
-		err := e.tdb.Commit(e.rootOf(sib), false)
-		out["Commit(sibling)"] = fmt.Sprint(err)
-	}()
-	sum.Extra["finding_F1"] = out
-	sum.Extra["pending_findings"] = e.pend
-	sum.Evaluations = 1
-	sum.Rule = "deterministic reproduction of F1"
+	sum.Steps = int(e.block)
+	sum.Distinct = 1
+	sum.Sample(tl.M{"scenario": "fork at cap depth", "commits": e.block})
+	sum.Rule = "fork built on the layer flattened by the 129th Update (default limits, StateDB commits only); every key read at head, fork and fork's child through both read paths; fork's child committed"
 }
 
-var _ = errors.New
 
 func main() {
-	mode := flag.String("mode", "replay", "replay|finding")
+	mode := flag.String("mode", "replay", "replay|regress")
 	in := flag.String("in", "", "behaviours json")
 	out := flag.String("out", "summary.json", "summary output")
+	flag.BoolVar(&iterMode, "iter", false, "additionally check the flat-state iterators at every available root (C22)")
 	flag.Parse()
 	if v := tl.EnvInt("C16_WAIT_S", 0); v > 0 {
 		waitMax = time.Duration(v) * time.Second
@@ -1188,19 +1317,10 @@ func main() {
 	switch *mode {
 	case "replay":
 		runReplay(*in, sum)
-	case "finding":
-		runFinding(sum)
+	case "regress":
+		runRegress(sum)
 	default:
 		tl.Fatal("bad mode")
-	}
-	if os.Getenv("C16_STRICT") == "1" {
-		// no pending handling: every manifestation of F1 is a violation
-		if pend, ok := sum.Extra["pending_findings"].(map[string]int); ok {
-			for k, n := range pend {
-				sum.Violate(fmt.Sprintf("%s [x%d]", k, n), tl.M{"finding": "F1", "detail": sum.Extra["finding_F1"]})
-			}
-			sum.Extra["pending_findings"] = map[string]int{}
-		}
 	}
 	sum.Write(*out)
 	if len(sum.Violations) > 0 {
